@@ -3,6 +3,7 @@ pub mod c01;
 pub mod c02;
 pub mod c02_ilv;
 pub mod c03;
+pub mod c03_seq;
 pub mod c04;
 pub mod c05;
 pub mod cluster;
